@@ -119,6 +119,7 @@ def _patch():
         if self._starting and not was:
             run.mode_psn = run.alloc()
             run.qposts.append(run.mode_psn)
+            run.log.append(["Q", run.mode_psn])
         return None
 
     def started(self, **kwargs):
@@ -213,6 +214,7 @@ class Run:
                     kw["queue"] = own
                     self.shared_used = True
                 self.qposts.append(psn)
+                self.log.append(["Q", psn])
                 self.em.post_queue(self.name(a[1]), self.make_cb(psn), **kw)
             elif k == "PP":
                 psn = self.alloc()
@@ -422,6 +424,8 @@ def c_obs(o):
         return "(LPlain %s %s)" % (nlit(o[1]), zlit(o[2]))
     if k == "CB":
         return "(LCallback %s)" % nlit(o[1])
+    if k == "Q":
+        return "(LPostQ %s)" % nlit(o[1])
     if k == "W":
         return "(LWait %s)" % nlit(o[1])
     if k == "C":
@@ -629,9 +633,7 @@ def gen_mode(rng, tier, i):
                     acts.append(["W"])
                     if rng.random() < 0.15:
                         acts.append(["CO"])
-                elif r < 0.6:
-                    acts.append(["CN", rng.randrange(3)])
-                body = ["s", acts]
+                body = ["s", acts]            # (no release-k-th here: the mode's own wait is released by stopping it)
             out.append([ev, hid[0], prio, body])
         return out
     regs = handlers(1, rng.choice([0, 1, 1, 2, 3]), False) + handlers(2, rng.choice([0, 1, 1, 2]), False)
